@@ -14,7 +14,7 @@ EXPLANATION = (
     "returned fragment only), with the error propagated; (R14.3) need_utf8_valid() is true exactly for "
     "byte-typed carriers; (R14.4) the validating skipper decodes \\u digits (= R02.5); (R14.5) raw spans "
     "are taken from the reader indices around the skip (= R12.5); (R14.6) the validating number skipper "
-    "keeps the one-fraction discipline (= R02.10). Does NOT decide that the validating skipper accepts "
+    "keeps the one-fraction discipline (= R02.10); (R14.7) on every backslash edge of the validating string skipper the escape interpreter is passed before the reader moves on. Does NOT decide that the validating skipper accepts "
     "only the grammar."
 )
 ASSUMPTIONS = ["rustc MIR and callee resolution; class-hierarchy edges for Reader/JsonInput/Index"]
@@ -215,4 +215,44 @@ def r14_s(ctx):
     ctx.include(c10.r10_1, 'R14.S')   # the checked walkers decode a member name before they compare it (no raw-byte shortcut past the validating key parser)
 
 
-RULES = [("R14.1", r14_1), ("R14.2", r14_2), ("R14.3", r14_3), ("R14.4", r14_4), ("R14.5", r14_5), ("R14.6", r14_6), ("R14.S", r14_s)]
+def r14_7(ctx):
+    """the validating string skipper hands every escape to the escape interpreter: on the backslash edge of each byte dispatch of
+    `Parser::skip_string` no reader step (eat / next / peek) and no return is reachable without passing `skip_escaped_chars`
+    (a shortcut that steps over the byte behind a backslash accepts `\` + control byte, `\q`, ...)"""
+    from ..analysis import switch_edges
+    prog = ctx.prog()
+    fs = [f for f in prog.fns.values() if f.crate == "sonic_rs" and f.name == "skip_string" and (f.self_adt or "").endswith("Parser")]
+    if not fs:
+        ctx.fail_closed("R14.7", "Parser::skip_string")
+        return
+    # the skipper and the Parser helpers it is built from (two levels), not the escape interpreter itself
+    cg = prog.callgraph
+    cone = {f.id for f in fs}
+    for _ in range(2):
+        for fid in list(cone):
+            for c in cg.get(fid, ()):
+                g = prog.fns.get(c)
+                if g is not None and g.crate == "sonic_rs" and (g.self_adt or "").endswith("Parser") and g.name not in ("skip_escaped_chars", "error", "fix_position") and "closure" not in g.kind:
+                    cone.add(c)
+    n = 0
+    for f in sorted((prog.fns[i] for i in cone), key=lambda g: g.id):
+        esc = {b for b, t in f.calls() if callee_is(t, "skip_escaped_chars")}
+        step = {b for b, t in f.calls() if callee_is(t, "eat", "next", "peek", "peek_n", "backward", "set_index")}
+        for b, t in f.terms():
+            if t["k"] != "switch":
+                continue
+            tg = dict(switch_edges(f, b))
+            # a dispatch that tells the backslash from the closing quote (a classification `matches!(ch, b'"' | b'\\' | ..)` has one target for both)
+            if 92 not in tg or 34 not in tg or tg[92] == tg[34]:
+                continue
+            n += 1
+            start = tg[92]
+            free = set() if start in esc else f.reachable_from(start, avoid=esc)
+            bad = sorted((free & step) | (free & set(f.return_blocks)))
+            ctx.ob("R14.7", f"{f.name}:backslash-edge#{n}:escape-interpreted", not bad, f.loc(t.get("ln")),
+                   "every path from the backslash edge passes skip_escaped_chars before the reader moves or the function returns" if not bad else
+                   "from the backslash edge the reader can move on (or the function return) without skip_escaped_chars: the byte behind the backslash is not validated as an escape")
+    ctx.floor("R14.7", "backslash edges in the byte dispatches of skip_string and its helpers", n, 1)
+
+
+RULES = [("R14.1", r14_1), ("R14.2", r14_2), ("R14.3", r14_3), ("R14.4", r14_4), ("R14.5", r14_5), ("R14.6", r14_6), ("R14.7", r14_7), ("R14.S", r14_s)]
